@@ -400,6 +400,7 @@ func (r *Run) ParallelCases(n, workers int, fn func(caseIdx int)) {
 
 func (r *Run) runCase(i int, fn func(int)) {
 	r.LogCase(i)
+	defer r.Watchdog(i, 10*time.Minute, nil)()
 	defer func() {
 		if p := recover(); p != nil {
 			r.Violation("panic/"+r.Part+"/"+firstLine(fmt.Sprint(p)), i, map[string]any{"panic": fmt.Sprint(p), "stack": string(stack())})
@@ -416,4 +417,26 @@ func firstLine(s string) string {
 		s = s[:80]
 	}
 	return s
+}
+
+// Watchdog guards one case with a generous wall-clock limit (started outside any synctest bubble, so it is real time).
+// On the unchanged tree cases take milliseconds; a case that does not end within the limit (a livelock that never lets the
+// bubble go idle, a deadlock) is reported as a violation and the process exits, because a stuck bubble cannot be cancelled.
+// The returned function stops the watchdog.
+func (r *Run) Watchdog(caseIdx int, limit time.Duration, describe func() any) func() {
+	done := make(chan struct{})
+	go func() {
+		select {
+		case <-done:
+		case <-time.After(limit):
+			var d any
+			if describe != nil {
+				d = describe()
+			}
+			r.Violation("stuck/"+r.Part, caseIdx, map[string]any{"message": fmt.Sprintf("case %d did not finish within %v of wall-clock time (livelock or deadlock: the run never became idle)", caseIdx, limit), "detail": d, "goroutines": string(allStacks())})
+			r.Finish()
+			os.Exit(1)
+		}
+	}()
+	return func() { close(done) }
 }
